@@ -43,6 +43,7 @@ def run(tier, seed, rng):
     for s in idents:
         for st in STYLE_STRINGS:
             lines.append('case %s %s' % (st, hx(s)))
+        lines.append('case - %s' % hx(s))   # no serialize_all: the identifier as written
     mout = leanside.run_driver(lines)
     iout = modea.run(binp, lines)
     assert len(mout) == len(iout) == len(lines), (len(mout), len(iout), len(lines))
@@ -98,7 +99,24 @@ def run(tier, seed, rng):
             e.extra['shape'] = 'style=%s' % st
             enums.append(e)
             k += 1
+    # the style decides the printed names whatever ELSE the header carries: flags only EnumString reads (use_phf,
+    # ascii_case_insensitive, parse_err_*) on enums that derive no EnumString at all
+    printing = []
+    for j, st in enumerate(STYLE_STRINGS):
+        e = ESpec(id='c07p_%d' % j, name='EnC07p%d' % j, style=st, derives=['Display', 'AsRefStr', 'IntoStaticStr', 'VariantNames', 'EnumMessage'],
+                  feats=['names', 'vnames'], ci=(j % 3 != 2), prefix=[None, 'p/'][j % 2])
+        e.phf = (j % 3 != 1)
+        e.variants = [VSpec(ident=x) for x in ('ContentType', 'HTTPServer', 'lower_case', 'X9y', 'Plain')] + [VSpec(ident='NoFold', ci=False), VSpec(ident='ExplicitTs', ts='Keep_ThisCASE')]
+        e.extra['shape'] = 'printing derives only, style=%s phf=%s ci=%s' % (st, e.phf, e.ci)
+        e.extra['no_noise'] = True
+        printing.append(e)
     info = strcorpus.query_model(enums)
+    for e in printing:
+        c.add(e)
+        keys = ','.join(rustgen.name_keys(e))
+        c.op(e.id, 'variants', 'VARIANTS/printing-only')
+        for v in e.variants:
+            c.op(e.id, 'names %s 0 x %s' % (hx(v.ident), keys), 'names/printing-only')
     for e in enums:
         c.add(e, in_domain=info[e.id]['nooverlap'])
         keys = ','.join(rustgen.name_keys(e))
